@@ -20,19 +20,19 @@ import (
 const modPath = "github.com/jhalter/mobius"
 
 type Engine struct {
-	repo      string
-	prog      *ssa.Program
-	fset      *token.FileSet
-	pkgs      map[string]*ssa.Package // by short name: hotline, mobius
-	funcs     map[string]*ssa.Function
-	contracts map[string]*Contract
-	typeIDs   typeutil.Map
-	nTypeID   int
-	globals   map[*ssa.Global]int
-	strConst  map[string]int
-	strList   []string
-	sizes     types.Sizes
-	contractFiles []string
+	repo           string
+	prog           *ssa.Program
+	fset           *token.FileSet
+	pkgs           map[string]*ssa.Package // by short name: hotline, mobius
+	funcs          map[string]*ssa.Function
+	contracts      map[string]*Contract
+	typeIDs        typeutil.Map
+	nTypeID        int
+	globals        map[*ssa.Global]int
+	strConst       map[string]int
+	strList        []string
+	sizes          types.Sizes
+	contractFiles  []string
 	ppkgs          map[string]*packages.Package
 	writtenGlobals map[*ssa.Global]bool
 	defines        map[string]*define
@@ -43,15 +43,15 @@ func loadEngine(repo string, contractDir string) (*Engine, error) {
 	var cfiles []string
 	// contracts: /repo copy when present, else the mirror injected by overlay
 	for _, rel := range []string{"hotline/zz_verif_contracts.go", "internal/mobius/zz_verif_contracts.go"} {
+		// the mirror in /verif/contracts is authoritative; it is overlaid on /repo's copy (kept
+		// in sync by sync_contracts.sh) so that restoring or editing /repo does not disarm a check
 		inRepo := filepath.Join(repo, rel)
-		if _, err := os.Stat(inRepo); err == nil {
-			cfiles = append(cfiles, inRepo)
-			continue
-		}
 		mirror := filepath.Join(contractDir, strings.ReplaceAll(rel, "/", "__"))
 		if b, err := os.ReadFile(mirror); err == nil {
 			overlay[inRepo] = b
 			cfiles = append(cfiles, mirror)
+		} else if _, err := os.Stat(inRepo); err == nil {
+			cfiles = append(cfiles, inRepo)
 		}
 	}
 	cfg := &packages.Config{
